@@ -40,6 +40,7 @@ pub fn make_inputs<T: HS>(cfg: &Cfg, out: &mut Out<T>, nstates: usize) -> Inputs
     let wkind = cfg.str("w", "diag");
     let real_svd = cfg.usize("real_svd", 0) == 1;
     let zero_w = cfg.opt_usize("zero_w");
+    let zero_d = cfg.opt_usize("zero_d");
     let (useed, vseed) = (cfg.usize("useed", 2) as u64, cfg.usize("vseed", 2) as u64);
     let one = T::ratio(1, 1);
     let zero = T::ratio(0, 1);
@@ -71,6 +72,8 @@ pub fn make_inputs<T: HS>(cfg: &Cfg, out: &mut Out<T>, nstates: usize) -> Inputs
     let eps = match cfg.str("eps", "default").as_str() {
         "default" => None,
         "neg" => Some(T::var("eps", -1, 2)),
+        // an exactly-zero threshold is a legitimate request: nothing but exact zeros is truncated
+        "zero" => Some(T::ratio(0, 1)),
         _ => Some(T::var("eps", 1, 2)),
     };
     let mut plants = vec![];
@@ -81,6 +84,11 @@ pub fn make_inputs<T: HS>(cfg: &Cfg, out: &mut Out<T>, nstates: usize) -> Inputs
         let d: Vec<DMatrix<T>> = (0..p)
             .map(|q| {
                 DMatrix::from_fn(n, m, |i, j| {
+                    // a derivative column that vanishes identically at the FIRST parameters only (e.g. d/dw cos(w x) at w = 0):
+                    // nothing detected there may be carried over to later parameters
+                    if st == 0 && zero_d == Some(j) {
+                        return zero;
+                    }
                     let (a, b) = small(i * m + j + q * 5, 3 + st);
                     T::var(&format!("d{st}_{q}_{i}_{j}"), a, b)
                 })
